@@ -13,6 +13,7 @@ class Ref(Expression):
     def __init__(self, name):
         self.name = name
         self.is_local = False
+        self.is_static = False
         self._resolved = None
 
     @property
@@ -23,7 +24,9 @@ class Ref(Expression):
         return self.name
 
     def _compile(self, out, flags):
-        if flags.uses_context and not self.is_local:
+        # A static reference (like "super.foo") does not go through the
+        # context of the grammar that is currently parsing.
+        if flags.uses_context and not self.is_local and not self.is_static:
             func = Code(f'_ctx.{self.resolved}')
         else:
             func = Code(self.resolved)
